@@ -14,6 +14,7 @@ def main(argv=None):
     ap.add_argument("--write-baseline", action="store_true")
     a = ap.parse_args(argv)
     seed = int(os.environ.get("VERIF_SEED", "0") or 0)
+    os.environ["VERIF_TIER"] = a.tier
     from . import runner
     pid = a.property.upper()
     if a.write_baseline:
